@@ -4,7 +4,7 @@ from __future__ import annotations
 
 import ast
 
-from tiv.astutil import body_walk, call_name, dotted, enclosing_stmt, guards, kw, norm, short, stores_in, try_context, walk_local
+from tiv.astutil import conds, body_walk, call_name, dotted, enclosing_stmt, guards, kw, norm, short, stores_in, try_context, walk_local
 from tiv.cfg import CFG, EX, KI, flag_edges, fmt_path
 from tiv.mutate import M
 from tiv.paths import dedupe_by_stmt, leak_points
@@ -36,38 +36,36 @@ def _is_finalize(n, var="render_data"):
 def run(ck, m):
     # ---- R1 ----------------------------------------------------------------------------
     fin = m.get(TY, "RenderData.finalize")
-    body = [s for s in fin.body if not (isinstance(s, ast.Expr) and isinstance(s.value, ast.Constant))]
-    ok = len(body) == 1 and isinstance(body[0], ast.If) and norm(body[0].test) == "not self.finalized" and not body[0].orelse
-    ck.ob("R1", fin, ok, "finalize() must do all its work under `if not self.finalized:`", stmt="RenderData.finalize: guarded by not self.finalized")
     calls = [c for c in body_walk(fin) if isinstance(c, ast.Call) and (call_name(c) or "").endswith("_finalize_render_data_")]
-    ck.ob("R1", fin, len(calls) == 1 and any(norm(t) == "not self.finalized" and b for t, b in guards(calls[0])),
-          "the finalizer must be called exactly once, under the not-finalized guard", stmt="RenderData.finalize: finalizer call guarded")
+    ck.ob("R1", fin, len(calls) == 1 and "not self.finalized" in conds(calls[0]),
+          "the finalizer must be called exactly once and only when the data is not yet finalized (guard `not self.finalized`)", stmt="RenderData.finalize: finalizer call guarded by not self.finalized")
     sets = [st for t, st in stores_in(ast.Module(body=fin.body, type_ignores=[])) if norm(t) == "self.finalized"]
     in_finally = bool(sets) and all(any(part == "finalbody" for _, part in try_context(s)) for s in sets) and all(norm(s.value) == "True" for s in sets)
     prot = bool(calls) and any(part == "body" and t.finalbody and any(s in [x for x in t.finalbody] for s in sets) for t, part in try_context(calls[0]))
     ck.ob("R1", fin, in_finally and prot, "the flag must be set in the finally of the try that calls the finalizer (a failing finalizer must not be retried, and a second call must be a no-op)",
           stmt="RenderData.finalize: flag set in finally")
+    other = [st for st in body_walk(fin) if isinstance(st, (ast.Expr, ast.Assign, ast.AugAssign, ast.Delete)) and not (isinstance(st, ast.Expr) and isinstance(st.value, ast.Constant))
+             and "not self.finalized" not in conds(st)]
+    ck.ob("R1", fin, not other, f"finalize() does work outside the not-finalized guard: {[short(o, 40) for o in other]}", stmt="RenderData.finalize: everything guarded by not self.finalized")
     dl = m.get(TY, "RenderData.__del__")
     cs = [c for c in body_walk(dl) if isinstance(c, ast.Call)]
     ck.ob("R1", dl, len(cs) == 1 and norm(cs[0]) == "self.finalize()", "__del__ must only delegate to finalize()", stmt="RenderData.__del__ delegates")
     cl = m.get(IT, "RenderIterator.close")
-    body = [s for s in cl.body if not (isinstance(s, ast.Expr) and isinstance(s.value, ast.Constant))]
-    ok = len(body) == 1 and isinstance(body[0], ast.If) and norm(body[0].test) == "not self._closed" and not body[0].orelse
-    ck.ob("R1", cl, ok, "close() must do all its work under `if not self._closed:` (idempotence)", stmt="RenderIterator.close: guarded by not self._closed")
-    if ok:
-        inner = body[0].body
-        ck.ob("R1", inner[-1], norm(inner[-1]) == "self._closed = True", "`self._closed = True` must be the last statement of close()", stmt="RenderIterator.close: _closed set last")
-        fz = [c for c in body_walk(cl) if isinstance(c, ast.Call) and norm(c) == "self._render_data.finalize()"]
-        ck.ob("R1", cl, len(fz) == 1 and any(norm(t) == "self._finalize_data" and b for t, b in guards(fz[0])),
-              "close() must finalize the data exactly once and only under `if self._finalize_data`", stmt="RenderIterator.close: finalize under _finalize_data")
-        # ---- R5 order
-        order = [norm(s) for s in inner]
-        gi = next((i for i, s in enumerate(order) if s == "self._iterator.close()"), None)
-        di = next((i for i, s in enumerate(order) if s == "del self._iterator"), None)
-        fi = next((i for i, s in enumerate(inner) if "self._render_data.finalize()" in norm(s)), None)
-        ck.ob("R5", cl, gi is not None and fi is not None and gi < fi, "close() must close the generator before finalizing the data (no frame can be rendered with finalized data)",
-              stmt="RenderIterator.close: generator closed before finalize")
-        ck.ob("R5", cl, di is not None and gi is not None and gi < di, "close() must delete the generator so that a later next() cannot reach _render_", stmt="RenderIterator.close: del self._iterator")
+    effects = [st for st in body_walk(cl) if isinstance(st, (ast.Expr, ast.Assign, ast.AugAssign, ast.Delete)) and not (isinstance(st, ast.Expr) and isinstance(st.value, ast.Constant))]
+    ung = [st for st in effects if "not self._closed" not in conds(st)]
+    ck.ob("R1", cl, bool(effects) and not ung, f"close() does work when the iterator is already closed (idempotence): {[short(o, 40) for o in ung]}", stmt="RenderIterator.close: everything guarded by not self._closed")
+    flag = [st for st in effects if norm(st) == "self._closed = True"]
+    ck.ob("R1", cl, len(flag) == 1 and all(e.lineno <= flag[0].lineno for e in effects), "`self._closed = True` must be the last effect of close()", stmt="RenderIterator.close: _closed set last")
+    fz = [c for c in body_walk(cl) if isinstance(c, ast.Call) and norm(c) == "self._render_data.finalize()"]
+    ck.ob("R1", cl, len(fz) == 1 and "self._finalize_data" in conds(fz[0]),
+          "close() must finalize the data exactly once and only under `self._finalize_data`", stmt="RenderIterator.close: finalize under _finalize_data")
+    # ---- R5 order
+    gi = next((st.lineno for st in effects if norm(st) == "self._iterator.close()"), None)
+    di = next((st.lineno for st in effects if norm(st) == "del self._iterator"), None)
+    fi = fz[0].lineno if fz else None
+    ck.ob("R5", cl, gi is not None and fi is not None and gi < fi, "close() must close the generator before finalizing the data (no frame can be rendered with finalized data)",
+          stmt="RenderIterator.close: generator closed before finalize")
+    ck.ob("R5", cl, di is not None and gi is not None and gi < di, "close() must delete the generator so that a later next() cannot reach _render_", stmt="RenderIterator.close: del self._iterator")
 
     # ---- R2 ----------------------------------------------------------------------------
     ir = m.get(RN, "Renderable._init_render_#4") if m.find(RN, "Renderable._init_render_#4") else None
